@@ -570,6 +570,14 @@ func c08ScanFile(c *Ctx, p *packages.Package, f *ast.File, rel string) ([]*c08Si
 						if path == "time" && c08TimeFuncs[x.Sel.Name] {
 							add("WallClock", fn, name, x, "")
 						}
+						if path == "context" {
+							// round 4: a context that ends by wall-clock time or by another goroutine — how far a loop gets before
+							// ctx.Err() / ctx.Done() fires is a property of the machine, not of the chain
+							switch x.Sel.Name {
+							case "WithTimeout", "WithDeadline", "WithCancel", "WithTimeoutCause", "WithDeadlineCause", "WithCancelCause", "AfterFunc", "Cause":
+								add("Deadline", fn, name, x, "")
+							}
+						}
 						if path == "time" && (x.Sel.Name == "Local" || x.Sel.Name == "LoadLocation") {
 							// the process's time zone (TZ, /etc/localtime)
 							add("OsCall", fn, name, x, "")
@@ -602,6 +610,9 @@ func c08ScanFile(c *Ctx, p *packages.Package, f *ast.File, rel string) ([]*c08Si
 							add("MapOrderCall", fn, full, x, "")
 						case m.Pkg().Path() == "sync" && m.Name() == "Range":
 							add("MapOrderCall", fn, full, x, "")
+						case (m.Name() == "Err" || m.Name() == "Done" || m.Name() == "Deadline") && c08IsContext(sel.Recv()):
+							// consulting a context's cancellation state
+							add("Deadline", fn, "context.Context."+m.Name(), x, "")
 						case m.Pkg().Path() == "time" && m.Name() == "Local":
 							// time.Time.Local: renders an instant in the process's time zone
 							add("OsCall", fn, full, x, "")
@@ -683,6 +694,22 @@ type c08TimeUse struct {
 	info   *types.Info
 	parent map[ast.Node]ast.Node
 	body   ast.Node
+}
+
+// c08IsContext: context.Context, or a type that carries one and forwards Err / Done / Deadline (sdk.Context)
+func c08IsContext(t types.Type) bool {
+	if t == nil {
+		return false
+	}
+	if p, ok := t.(*types.Pointer); ok {
+		t = p.Elem()
+	}
+	n, ok := t.(*types.Named)
+	if !ok || n.Obj().Pkg() == nil {
+		return false
+	}
+	pp := n.Obj().Pkg().Path()
+	return n.Obj().Name() == "Context" && (pp == "context" || pp == "github.com/cosmos/cosmos-sdk/types")
 }
 
 func c08IsTime(t types.Type) bool {
